@@ -1,58 +1,58 @@
 --------------------------- MODULE ReplStoreTrace ---------------------------
 (***************************************************************************)
-(* C20 - REPL history persists intact across restarts and crashes.         *)
+(* C20 acceptor: replays the events recorded from the real History object  *)
+(* against the reference of the property.                                  *)
 (*                                                                         *)
 (* Reference: `ref` is the history an uninterrupted session would hold -   *)
 (* the entered forms (empty forms and immediate repetitions are not        *)
-(* entered), cut back to `limit` whenever it reaches limit + 10 %.  A form *)
-(* is a sequence of lines, a line a sequence of code points.               *)
-(*  - after a restart without a crash the loaded history equals `ref`;     *)
+(* entered), cut back to `limit` whenever it reaches limit + 10 %, minus   *)
+(* the cleared ranges.  A form is a sequence of lines, a line a sequence   *)
+(* of code points.                                                         *)
+(*  - after a restart without a crash the loaded history equals `ref`      *)
+(*    exactly, every form intact;                                          *)
 (*  - after a crash during an operation the loaded history is a prefix or  *)
-(*    a suffix of `ref` before or after that operation (never a torn,      *)
+(*    a suffix of `ref` before or after that operation (so never a torn,   *)
 (*    duplicated or resurrected entry); the reference then continues from  *)
 (*    what was loaded.                                                     *)
-(* Events: add(form), clear(start, end), setlimit(n), crash(during),       *)
-(* restart(loaded).                                                        *)
+(* Events: add(form, crashed), clear(a, b, crashed), crash(loaded),        *)
+(* restart(loaded).  Only the first rejection of a trace is reported.      *)
 (***************************************************************************)
 EXTENDS Integers, Sequences, TLC, Json, FiniteSets
 CONSTANT TraceFile
 E == ndJsonDeserialize(TraceFile)
-VARIABLES l, ref, prev, limit, crashed, bad, failed, seen
-Max(lim) == lim + (lim \div 10)
+VARIABLES l, ref, prev, bad, failed, seen
+MaxOf(lim) == lim + (lim \div 10)
 LastN(s, n) == IF Len(s) <= n THEN s ELSE SubSeq(s, Len(s) - n + 1, Len(s))
 Blank(form) == \A i \in 1..Len(form) : \A j \in 1..Len(form[i]) : form[i][j] = 32
 RefAdd(r, f, lim) == IF lim <= 0 \/ Blank(f) \/ (Len(r) > 0 /\ r[Len(r)] = f) THEN r
-                     ELSE LET r2 == Append(r, f) IN IF Max(lim) <= Len(r2) THEN LastN(r2, lim) ELSE r2
-RefClear(r, st, en) == LET e2 == IF en < 0 \/ en >= Len(r) THEN Len(r) - 1 ELSE en
-                           s2 == IF st < 0 THEN 0 ELSE st
-                       IN IF s2 > e2 THEN r ELSE SubSeq(r, 1, s2) \o SubSeq(r, e2 + 2, Len(r))
+                     ELSE LET r2 == Append(r, f) IN IF MaxOf(lim) <= Len(r2) THEN LastN(r2, lim) ELSE r2
+\* the entries a..b counted from the most recent one (0 = newest) are dropped
+RefClear(r, a, b) == LET n == Len(r)
+                         b2 == IF b < 0 \/ b >= n THEN n - 1 ELSE b
+                         a2 == IF a < 0 THEN 0 ELSE a
+                     IN IF a2 > b2 THEN r ELSE SubSeq(r, 1, n - b2 - 1) \o SubSeq(r, n - a2 + 1, n)
 IsPrefix(a, b) == Len(a) <= Len(b) /\ SubSeq(b, 1, Len(a)) = a
 IsSuffix(a, b) == Len(a) <= Len(b) /\ SubSeq(b, Len(b) - Len(a) + 1, Len(b)) = a
 Consistent(x, r) == IsPrefix(x, r) \/ IsSuffix(x, r)
-Init == /\ l = 1 /\ ref = <<>> /\ prev = <<>> /\ limit = 1000 /\ crashed = FALSE
-        /\ bad = <<>> /\ failed = FALSE /\ seen = 0
+Init == l = 1 /\ ref = <<>> /\ prev = <<>> /\ bad = <<>> /\ failed = FALSE /\ seen = 0
 Next ==
   /\ l <= Len(E) /\ l' = l + 1
   /\ LET e == E[l]
          fresh == e.i = 0
          r0 == IF fresh THEN <<>> ELSE ref
          p0 == IF fresh THEN <<>> ELSE prev
-         lim0 == IF fresh THEN 1000 ELSE limit
-         c0 == IF fresh THEN FALSE ELSE crashed
          f0 == IF fresh THEN FALSE ELSE failed
-     IN IF f0 THEN UNCHANGED <<ref, prev, limit, crashed, bad, seen>> /\ failed' = TRUE
-        ELSE CASE e.op = "add"      -> /\ prev' = r0 /\ ref' = RefAdd(r0, e.form, lim0) /\ limit' = lim0
-                                       /\ crashed' = e.crashed /\ UNCHANGED <<bad, seen>> /\ failed' = FALSE
-               [] e.op = "clear"    -> /\ prev' = r0 /\ ref' = RefClear(r0, e.start, e.end) /\ limit' = lim0
-                                       /\ crashed' = e.crashed /\ UNCHANGED <<bad, seen>> /\ failed' = FALSE
-               [] e.op = "setlimit" -> /\ limit' = e.n /\ prev' = p0 /\ ref' = r0 /\ crashed' = c0
-                                       /\ UNCHANGED <<bad, seen>> /\ failed' = FALSE
-               [] e.op = "restart"  ->
-                    LET ok == IF c0 THEN Consistent(e.loaded, p0) \/ Consistent(e.loaded, r0) ELSE e.loaded = r0 IN
+     IN IF f0 THEN UNCHANGED <<ref, prev, bad, seen>> /\ failed' = TRUE
+        ELSE CASE e.op = "add"   -> /\ prev' = r0 /\ ref' = RefAdd(r0, e.form, e.limit)
+                                    /\ UNCHANGED <<bad, seen>> /\ failed' = FALSE
+               [] e.op = "clear" -> /\ prev' = r0 /\ ref' = RefClear(r0, e.a, e.b)
+                                    /\ UNCHANGED <<bad, seen>> /\ failed' = FALSE
+               [] e.op \in {"crash", "restart"} ->
+                    LET ok == IF e.op = "crash" THEN Consistent(e.loaded, p0) \/ Consistent(e.loaded, r0) ELSE e.loaded = r0 IN
                     /\ seen' = seen + 1 /\ failed' = ~ok
-                    /\ bad' = IF ok THEN bad ELSE Append(bad, [l |-> l, t |-> e.t, i |-> e.i, crashed |-> c0,
+                    /\ bad' = IF ok THEN bad ELSE Append(bad, [l |-> l, t |-> e.t, i |-> e.i, op |-> e.op,
                                                                want |-> Len(r0), got |-> Len(e.loaded)])
-                    /\ ref' = e.loaded /\ prev' = e.loaded /\ limit' = lim0 /\ crashed' = FALSE
-               [] OTHER -> UNCHANGED <<ref, prev, limit, crashed, bad, seen, failed>>
+                    /\ ref' = e.loaded /\ prev' = e.loaded
+               [] OTHER -> UNCHANGED <<ref, prev, bad, seen, failed>>
 Done == (l = Len(E) + 1) => PrintT("RESULT" \o ToJson([bad |-> bad, checked |-> seen]))
 =============================================================================
